@@ -6,6 +6,7 @@ import (
 	"bytes"
 	"fmt"
 	"strings"
+	"sync/atomic"
 	"testing"
 
 	ml "github.com/hashicorp/memberlist"
@@ -364,6 +365,10 @@ func krConcP(prop string, r *rng, id string) {
 		krConcBig(prop, r, id)
 		return
 	}
+	if r.chance(1, 3) {
+		krRaceUseRemove(prop, r, id)
+		return
+	}
 	poolHex := make([]string, len(pool.keys))
 	for i, k := range pool.keys {
 		poolHex[i] = hx(k)
@@ -493,6 +498,79 @@ func krConcBig(prop string, r *rng, id string) {
 		// back to a ring without the new key and with the old one (at the end) for the next round
 		kr.RemoveKey(pool.keys[newI])
 		kr.AddKey(oldK)
+	}
+}
+
+// krRaceUseRemove: the same installed secondary key is promoted on one goroutine and retired on another, many
+// thousand times, the two calls released together by a spinning barrier with a varying head start for one of
+// them. Exactly one of them can succeed (promote first: the retire call is refused, the key is primary;
+// retire first: the promote call is refused, the key is gone).
+func krRaceUseRemove(prop string, r *rng, id string) {
+	pool := &krPool{}
+	for i := 0; i < 3; i++ {
+		pool.keys = append(pool.keys, r.bytes([]int{16, 24, 32}[i]))
+	}
+	poolHex := make([]string, len(pool.keys))
+	for i, k := range pool.keys {
+		poolHex[i] = hx(k)
+	}
+	k := pool.keys[1+r.intn(2)]
+	ki := 1
+	if bytes.Equal(k, pool.keys[2]) {
+		ki = 2
+	}
+	var round atomic.Int64
+	var kr atomic.Pointer[ml.Keyring]
+	var resA, resB atomic.Value
+	var doneA, doneB atomic.Int64
+	stop := make(chan struct{})
+	worker := func(use bool, done *atomic.Int64, res *atomic.Value, skewOf func(int64) int) {
+		seen := int64(0)
+		for {
+			for round.Load() == seen {
+				select {
+				case <-stop:
+					return
+				default:
+				}
+			}
+			seen = round.Load()
+			for i := skewOf(seen); i > 0; i-- {
+				_ = i
+			}
+			ring := kr.Load()
+			if use {
+				res.Store(errTok(ring.UseKey(k)))
+			} else {
+				res.Store(errTok(ring.RemoveKey(k)))
+			}
+			done.Store(seen)
+		}
+	}
+	go worker(true, &doneA, &resA, func(n int64) int { return int(n % 7 * 13) })
+	go worker(false, &doneB, &resB, func(n int64) int { return int(n % 5 * 17) })
+	defer close(stop)
+	rounds := int64(40000)
+	for n := int64(1); n <= rounds; n++ {
+		ring, _ := ml.NewKeyring(pool.keys[1:], pool.keys[0])
+		kr.Store(ring)
+		round.Store(n)
+		for doneA.Load() != n || doneB.Load() != n {
+		}
+		ra, rb := resA.Load().(string), resB.Load().(string)
+		final := pool.ring(ring.GetKeys())
+		okUseFirst := ra == "ok" && rb != "ok"
+		okRemoveFirst := ra != "ok" && rb == "ok"
+		if n == 1 || !(okUseFirst || okRemoveFirst) {
+			rid := id
+			if n > 1 {
+				rid = fmt.Sprintf("%s.%d", id, n)
+			}
+			emit("%s conc id=%s pool=%s ring0=0.1.2 a=use:%d:%s b=remove:%d:%s final=%s", prop, rid, strings.Join(poolHex, ","), ki, ra, ki, rb, final)
+			if n > 1 {
+				return
+			}
+		}
 	}
 }
 
